@@ -9,6 +9,9 @@ from unparse import unparse, strip_marks
 EDGE = [('edge:only-function-definitions', 'function f(a) -> a + 1; function g() -> f(1)'), ('edge:empty-program', ''), ('edge:comment-only', '/* nothing */ // at all\n'),
         ('edge:ends-with-function', 'print("a\\n"); function f() -> 1'), ('edge:null-only', 'null'), ('edge:begin-end', 'begin end'),
         ('edge:array-sizes-around-65536', 'let a = array(65536, 7); a[65535] <- 1; let b = array(65535, 2); let c = array(65537, null); print("~ ~ ~ ~\\n", a[65535], a[0], b[65534], c[65536])'),
+        ('edge:strings-equal-to-internal-names', 'print("if:consequent:0 if:end:1 loop:body:2 loop:condition:3 λ: ::size_0 ::array_0 ::i_0\\n"); if true then print("if:consequent:0\\n") else print("if:end:1\\n"); '
+         'let i = 0; while i < 2 do begin print("loop:body:2"); print("loop:condition:3"); i <- i + 1 end; let a = array(2, begin print("::i_0"); print("::size_0"); 1 end); print("λ:~\\n", a); '
+         'function f(x) -> if x then print("if:end:1") else print("if:consequent:0"); f(true); f(false); print("if:end:1")'),
         ('edge:field-and-method-of-one-name', 'let o = object begin let value = 42; function value() -> this.value; function m() -> 1; let m = 2 end; print("~ ~ ~ ~ ~\\n", o.value, o.value(), o.m, o.m(), o)')]
 
 
